@@ -1022,6 +1022,19 @@ def _def_upwards(fn, blk, l, depth=0):
     return None
 
 
+# A getter that the tables name can be decoded in place after a refactoring (`active_fat()` -> the payload of a
+# `FatMirroring::Disabled { active_fat: flags & 0x0F }`): the same provenance counts as the call
+CALL_ALIASES = {
+    '::active_fat': [{('field', 'extended_flags'), ('const', 0x0F), ('op', 'BitAnd')}],
+}
+
+
+def has_call(toks, suffix):
+    if any(tk[0] == 'call' and tk[1].endswith(suffix) for tk in toks):
+        return True
+    return any(alt <= toks for alt in CALL_ALIASES.get(suffix, ()))
+
+
 OPTION_VIEWS = ('core::option::Option::as_mut', 'core::option::Option::as_ref', 'core::result::Result::as_ref',
                 'core::result::Result::as_mut')
 
